@@ -439,6 +439,26 @@ class Replay:
         if hung:
             self.notes.append('hang in %s' % self.current)
             self.outs.append('hang')
+            try:        # where the real call is stuck (innermost frames of the replay thread)
+                import traceback
+                fr = sys._current_frames().get(th.ident)
+                if fr is not None:
+                    self.notes.append('stack: ' + ' < '.join('%s:%d %s' % (os.path.basename(f.filename), f.lineno, f.name)
+                                                              for f in reversed(traceback.extract_stack(fr)[-6:])))
+            except Exception:  # noqa
+                pass
+            if self.kind != 'thread' and self.w is not None:
+                try:        # what the child process is doing according to the kernel
+                    pid = self.w.pid
+                    tasks = sorted(os.listdir('/proc/%d/task' % pid))
+                    st = open('/proc/%d/stat' % pid).read().rsplit(')', 1)[1].split()[0]
+                    wch = [open('/proc/%d/task/%s/wchan' % (pid, k)).read() for k in tasks]
+                    self.notes.append('child pid %d state %s tasks %s' % (pid, st, wch))
+                    if os.environ.get('VERIF_PAPI_DEBUG'):      # python stacks of the child on the runner's stderr
+                        os.kill(pid, signal.SIGABRT)
+                        time.sleep(0.3)
+                except Exception as e:  # noqa
+                    self.notes.append('child: %r' % (e,))
         self.cleanup()
         if hung:
             th.join(3)
@@ -551,8 +571,16 @@ def run_jobs(jobs, nproc, name, timeout, module='vf.drivers.persistent_api'):
         jf, of = os.path.join(d, 'jobs%d.json' % n), os.path.join(d, 'out%d.json' % n)
         with open(jf, 'w') as f:
             json.dump(ch, f)
+        # the children of the code under test inherit these descriptors and write tracebacks of every expected
+        # target exception to them: they must never be a pipe nobody drains (a full pipe blocks the children)
+        dbg = os.environ.get('VERIF_PAPI_DEBUG')
+        if dbg:
+            env['PYTHONFAULTHANDLER'] = '1'
+        logf = open(os.path.join(dbg or d, 'runner-%s-%d.log' % (name, n)), 'wb')
         p = subprocess.Popen([PY, '-m', module, '--runner', jf, of], cwd=VERIF, env=env,
-                             stdout=subprocess.PIPE, stderr=subprocess.STDOUT, start_new_session=True)
+                             stdout=logf, stderr=subprocess.STDOUT, start_new_session=True)
+        logf.close()
+        p.logpath = logf.name
         procs.append((p, of, len(ch)))
     out, t0 = [], time.time()
     try:
@@ -571,8 +599,9 @@ def run_jobs(jobs, nproc, name, timeout, module='vf.drivers.persistent_api'):
 
 def _collect(procs, timeout, t0, out):
     for p, of, n in procs:
+        so = b''
         try:
-            so, _ = p.communicate(timeout=max(5, timeout - (time.time() - t0)))
+            p.wait(timeout=max(5, timeout - (time.time() - t0)))
         except subprocess.TimeoutExpired:
             so = b'(runner timed out)'
         finally:
@@ -584,6 +613,11 @@ def _collect(procs, timeout, t0, out):
         path = of if os.path.exists(of) else of + '.part'
         if not os.path.exists(path):
             if p.returncode not in (0, -9):
+                try:
+                    with open(p.logpath, 'rb') as f:
+                        so += f.read()[-3000:]
+                except OSError:
+                    pass
                 raise MachineryError('replay runner failed: rc=%s\n%s' % (p.returncode, so.decode('utf-8', 'replace')[-3000:]))
             continue              # ran out of time before its first results: the caller sees the jobs as not run
         try:
